@@ -10,6 +10,7 @@ package hx
 
 import (
 	"bytes"
+	"crypto/sha256"
 	"encoding/base64"
 	"encoding/binary"
 	"errors"
@@ -22,6 +23,7 @@ import (
 	"strconv"
 	"strings"
 	"sync"
+	"sync/atomic"
 	"time"
 
 	"github.com/IrineSistiana/mosproxy/app/router"
@@ -57,6 +59,10 @@ type RouterEnv struct {
 	mu        sync.Mutex
 	behaviour map[string]Behaviour
 	queries   map[string][]UpQuery
+	keyed      bool
+	keyedTTL   uint32
+	keyedDelay time.Duration
+	KeyedCount atomic.Int64 // upstream exchanges served by the keyed behaviour
 }
 
 func FreePort() int {
@@ -132,6 +138,17 @@ func (e *RouterEnv) lookup(idx int, proto string, wire []byte) (Behaviour, bool)
 	defer e.mu.Unlock()
 	e.queries[key] = append(e.queries[key], UpQuery{Upstream: idx, Proto: proto, Wire: append([]byte(nil), wire...)})
 	b, ok := e.behaviour[key]
+	if !ok && e.keyed {
+		// keyed mode does not keep a per-question log (it would grow without bound under load)
+		delete(e.queries, key)
+		e.KeyedCount.Add(1)
+		var d time.Duration
+		if e.keyedDelay > 0 && len(wire) >= 2 {
+			h := sha256.Sum256(wire)
+			d = time.Duration(uint64(binary.BigEndian.Uint32(h[:4])) % uint64(e.keyedDelay))
+		}
+		return Behaviour{Kind: "reply", Reply: KeyedReply(wire, e.keyedTTL), Delay: d}, true
+	}
 	return b, ok
 }
 
@@ -507,4 +524,54 @@ func (e *RouterEnv) SendRawTCP(l string, b []byte, frame bool) string {
 		return "closed"
 	}
 	return "open"
+}
+
+// ---- keyed upstream behaviour (C04): the answer is a pure function of the question ----
+
+// KeyedAnswer returns the A-record addresses the keyed upstream gives for a question key (lower-cased
+// raw name + type + class as returned by QuestionKey).
+func KeyedAnswer(key string) [][4]byte {
+	h := sha256.Sum256([]byte(key))
+	n := 1 + int(h[0])%3
+	out := make([][4]byte, n)
+	for i := 0; i < n; i++ {
+		copy(out[i][:], h[1+4*i:5+4*i])
+	}
+	return out
+}
+
+// KeyedReply builds the reply of the keyed upstream for query q (nil if q has no parsable question).
+func KeyedReply(q []byte, ttl uint32) []byte {
+	qe := QuestionEnd(q)
+	if qe < 0 {
+		return nil
+	}
+	key := QuestionKey(q)
+	ans := KeyedAnswer(key)
+	r := append([]byte(nil), q[:qe]...)
+	r[2] = 0x81
+	r[3] = 0x80
+	binary.BigEndian.PutUint16(r[4:], 1)
+	binary.BigEndian.PutUint16(r[6:], uint16(len(ans)))
+	binary.BigEndian.PutUint16(r[8:], 0)
+	binary.BigEndian.PutUint16(r[10:], 0)
+	for _, a := range ans {
+		r = append(r, 0xC0, 0x0C)
+		r = binary.BigEndian.AppendUint16(r, 1)
+		r = binary.BigEndian.AppendUint16(r, binary.BigEndian.Uint16(q[qe-2:qe]))
+		r = binary.BigEndian.AppendUint32(r, ttl)
+		r = binary.BigEndian.AppendUint16(r, 4)
+		r = append(r, a[:]...)
+	}
+	return r
+}
+
+// EnableKeyed makes every fake upstream answer unscripted questions with KeyedReply after a
+// pseudo-random delay up to maxDelay (derived from the query bytes, so replies are reordered).
+func (e *RouterEnv) EnableKeyed(ttl uint32, maxDelay time.Duration) {
+	e.mu.Lock()
+	e.keyedTTL = ttl
+	e.keyedDelay = maxDelay
+	e.keyed = true
+	e.mu.Unlock()
 }
